@@ -1,10 +1,100 @@
 /- line-protocol handlers for Model/HandAat.lean.  All commands are prefixed `ha.`. -/
 import FontVerif.Model.HandAat
+import FontVerif.Drv.C01Iter
 namespace FontVerif.Drv.C01HandAat
-open FontVerif FontVerif.ReadIter FontVerif.HandRead FontVerif.HandAat
+open FontVerif FontVerif.HandRead FontVerif.HandAat
+
+def errStr : AErr → String
+  | .oob => "eO"
+  | .null => "eN"
+  | .malformed => "eM"
+  | .badFormat n => s!"eF{n}"
+
+def rStr {α : Type} (f : α → String) : R α → String
+  | .ok a => f a
+  | .err e => errStr e
+  | .trap => "trap"
+
+def joinStrs (xs : List String) : String := if xs.isEmpty then "-" else " ".intercalate xs
+
+/-- split a list at every "|" -/
+def splitBars (xs : List String) : List (List String) :=
+  let r := xs.foldl (fun (acc : List (List String) × List String) x =>
+    if x = "|" then (acc.2.reverse :: acc.1, []) else (acc.1, x :: acc.2)) ([], [])
+  (r.2.reverse :: r.1).reverse
+
+def natsOrEmpty (xs : List String) : Option (List Nat) := if xs = ["-"] then some [] else parseNats? xs
+
+def hexesOrEmpty (xs : List String) : Option (List (List Nat)) :=
+  if xs = ["-"] then some [] else xs.mapM (fun s => if s = "." then some [] else parseHex? s)
 
 def handle (cmd : String) (args : List String) : Option String :=
   match cmd, args with
+  | "ha.lk", size :: hex :: "|" :: gs =>
+    match size.toNat?, parseHex? hex, natsOrEmpty gs with
+    | some size, some d, some gs =>
+      if size ≠ 2 ∧ size ≠ 4 then none else
+      some (joinStrs (gs.map (fun g => rStr toString (lookupValue d size g))))
+    | _, _, _ => none
+  | "ha.st", hex :: "|" :: rest =>
+    match parseHex? hex, (splitBars rest).mapM natsOrEmpty with
+    | some d, some [gs, states, classes] =>
+      if !stRead d then some "err" else
+      let cs := gs.map (fun g => rStr toString (stClass d g))
+      let es := states.flatMap (fun s => classes.map (fun c =>
+        rStr (fun (p : Nat × Nat) => s!"{p.1}:{p.2}") (stEntry d s c)))
+      some s!"{joinStrs cs} | {joinStrs es}"
+    | _, _ => none
+  | "ha.stx", psize :: hex :: "|" :: rest =>
+    match psize.toNat?, parseHex? hex, (splitBars rest).mapM natsOrEmpty with
+    | some psize, some d, some [gs, states, classes] =>
+      if !stxRead d then some "err" else
+      let cs := gs.map (fun g => rStr toString (stxClass d g))
+      let es := states.flatMap (fun s => classes.map (fun c =>
+        rStr (fun (p : Nat × Nat × Nat) => s!"{p.1}:{p.2.1}:{p.2.2}") (stxEntry d psize s c)))
+      some s!"{joinStrs cs} | {joinStrs es}"
+    | _, _, _ => none
+  | "ha.sentry", [psize, hex] =>
+    match psize.toNat?, parseHex? hex with
+    | some psize, some d =>
+      some (match stateEntryRead d psize with
+        | .ok (a, b, c) => s!"{a}:{b}:{c}"
+        | .error e => errStr e)
+    | _, _ => none
+  | "ha.ankr", hex :: "|" :: gs =>
+    match parseHex? hex, natsOrEmpty gs with
+    | some d, some gs =>
+      if !ankrRead d then some "err" else
+      some (joinStrs (gs.map (fun g => rStr (fun (p : Nat × Nat) => if p.2 = 0 then "_:0" else s!"{p.1}:{p.2}") (ankrPoints d g))))
+    | _, _ => none
+  | "ha.feat", hex :: "|" :: fs =>
+    match parseHex? hex, natsOrEmpty fs with
+    | some d, some fs =>
+      match featRead d with
+      | none => some "err"
+      | some n =>
+        some (joinStrs (fs.map (fun f => match featFind d n f with
+          | none => "n"
+          | some ix =>
+            let p0 := 12 + ix * 12
+            let flags := beAt d (p0 + 8) 2
+            s!"{beAt d (p0 + 2) 2}.{beAt d (p0 + 4) 4}.{flags}.{beAt d (p0 + 10) 2}:{if featExclusive flags then 1 else 0}:{featDefaultIndex flags}")))
+    | _, _ => none
+  | "ha.ltag", hex :: "|" :: tags =>
+    match parseHex? hex, hexesOrEmpty tags with
+    | some d, some tags =>
+      match ltagRead d with
+      | none => some "err"
+      | some n =>
+        match ltagTags d n with
+        | .trap => some "trap"
+        | .err e => some (errStr e)
+        | .ok xs =>
+          let h := Drv.C01Iter.fnv (xs.flatMap (fun t => [t.1, t.2.1, t.2.2]))
+          let ixs := tags.map (fun t => rStr (fun (o : Option Nat) => match o with | some i => toString i | none => "n")
+            (ltagIndexFor d n t))
+          some s!"{xs.length} {h} | {joinStrs ixs}"
+    | _, _ => none
   | _, _ => none
 
 end FontVerif.Drv.C01HandAat
